@@ -579,6 +579,25 @@ theorem skiplist_getRank_total (sl : SL) (h : Skiplist.Inv sl) (m : Bytes) (s : 
     ∃ r, Skiplist.getRank sl m s = .ok r ∧ 0 ≤ r ∧ r ≤ sl.length :=
   Skiplist.getRank_ok h m s
 
+/-- … and exactly (`Skiplist.getRank_char`): with `k` = the number of chain nodes whose (score, member) is ≤ the pair
+    asked for (`chain sl` = the chain, `Stop … i A u B` = "`u`, at position `|A|`, is the last node among positions `0..k`
+    that takes part in level `i`", `NoHit … i` = "the stopping node of level `i` is the header or has another member"):
+    the result is the position of the stopping node of the HIGHEST level whose stopping node is not the header and has
+    member `m`; 0 if no level qualifies -/
+theorem skiplist_getRank_char (sl : SL) (h : Skiplist.Inv sl) (m : Bytes) (s : F64) :
+    ∃ r, Skiplist.getRank sl m s = .ok r ∧
+      ((r = 0 ∧ ∀ i, i < sl.level →
+          Skiplist.NoHit sl (chain sl) ((Skiplist.abs sl).takeWhile (Skiplist.rankP m s)).length m i) ∨
+       (∃ i, i < sl.level ∧ ∃ A u B,
+          Skiplist.Stop sl (chain sl) ((Skiplist.abs sl).takeWhile (Skiplist.rankP m s)).length i A u B ∧
+          u ≠ 0 ∧ (Skiplist.itemAt sl.heap u).2 = m ∧ r = (A.length : Int) ∧ 1 ≤ A.length ∧
+          A.length ≤ ((Skiplist.abs sl).takeWhile (Skiplist.rankP m s)).length ∧
+          ∀ i', i < i' → i' < sl.level →
+            Skiplist.NoHit sl (chain sl) ((Skiplist.abs sl).takeWhile (Skiplist.rankP m s)).length m i')) := by
+  obtain ⟨c, hc⟩ := h
+  rw [Skiplist.chain_eq hc, Skiplist.abs_eq hc]
+  exact Skiplist.getRank_char hc m s
+
 /-- both hypotheses of `skiplist_getRank_spec` / `_index` are needed — two structures built by the model's own `insert`
     (they satisfy the invariant: `Skiplist.invA`, `Skiplist.invB`): a member asked for with a score that is not its
     stored score is "found" at a high level; with a duplicated member the taller duplicate's position is returned -/
